@@ -1,4 +1,203 @@
 ---------------------------- MODULE PuanPolyOps ----------------------------
-EXTENDS Integers, Sequences, FiniteSets, TLC
-PolyVerdict(e) == {}
+(***************************************************************************)
+(* Integer polyhedra  A x >= b  over bounded integer columns: pure         *)
+(* operators (solution sets, row/column bounds, bound tightening,          *)
+(* reducible rows / forced columns, reduction steps, point classification, *)
+(* id/position bridges) and the trace verdicts of C11, C12, C19, C20.      *)
+(*   rows : Seq([b |-> Int, a |-> Seq(Int)])                               *)
+(*   cols : Seq([id, lo, hi])                                              *)
+(***************************************************************************)
+EXTENDS PuanModel
+
+MinInt == -32768
+MaxInt == 32767
+
+RECURSIVE MaxSeq(_)
+MaxSeq(s) == IF Len(s) = 1 THEN s[1] ELSE Max2(Head(s), MaxSeq(Tail(s)))
+RECURSIVE MinSeq(_)
+MinSeq(s) == IF Len(s) = 1 THEN s[1] ELSE Min2(Head(s), MinSeq(Tail(s)))
+\* floor division for any non-zero divisor
+FloorDiv(a, b) == IF b > 0 THEN a \div b ELSE (-a) \div (-b)
+
+(* ---- boxes and solution sets (points are functions column position -> Int) -- *)
+PBox(cols) == RangeProduct(DOMAIN cols, [ j \in DOMAIN cols |-> cols[j].lo ], [ j \in DOMAIN cols |-> cols[j].hi ])
+Lhs(r, x) == SumSeq([ j \in DOMAIN r.a |-> r.a[j] * x[j] ])
+RowOk(r, x) == Lhs(r, x) >= r.b
+PSol(rows, cols) == { x \in PBox(cols) : \A i \in DOMAIN rows : RowOk(rows[i], x) }
+WellFormed(rows, cols) == \A i \in DOMAIN rows : Len(rows[i].a) = Len(cols)
+
+(* ---- row bounds, as implemented (interval arithmetic) and as defined (enumeration) *)
+AMaxE(a, c) == IF a > 0 THEN a * c.hi ELSE IF a < 0 THEN a * c.lo ELSE 0
+AMinE(a, c) == IF a > 0 THEN a * c.lo ELSE IF a < 0 THEN a * c.hi ELSE 0
+RowUb(r, cols) == SumSeq([ j \in DOMAIN cols |-> AMaxE(r.a[j], cols[j]) ]) - r.b
+RowLb(r, cols) == SumSeq([ j \in DOMAIN cols |-> AMinE(r.a[j], cols[j]) ]) - r.b
+RowRange(r, cols) == { Lhs(r, x) - r.b : x \in PBox(cols) }
+\* number of distinct valuations of the columns the row actually mentions
+NComb(r, cols) == Cardinality({ [ j \in { j \in DOMAIN cols : r.a[j] # 0 } |-> x[j] ] : x \in PBox(cols) })
+NCombFormula(r, cols) == LET RECURSIVE P(_)
+                             P(j) == IF j > Len(cols) THEN 1
+                                     ELSE (IF r.a[j] # 0 THEN cols[j].hi - cols[j].lo + 1 ELSE 1) * P(j + 1)
+                         IN P(1)
+
+(* ---- bound tightening, transcribed (floor arithmetic, int16 sentinels) -------- *)
+Cand(r, cols, j) == FloorDiv(-(RowUb(r, cols) - AMaxE(r.a[j], cols[j])), r.a[j])
+Tighten(rows, cols) ==
+  [ j \in DOMAIN cols |->
+      IF rows = <<>> THEN [lo |-> cols[j].lo, hi |-> cols[j].hi]
+      ELSE LET lbs == [ i \in DOMAIN rows |-> IF rows[i].a[j] > 0 THEN Cand(rows[i], cols, j) ELSE MinInt ]
+               ubs == [ i \in DOMAIN rows |-> IF rows[i].a[j] < 0 THEN Cand(rows[i], cols, j) ELSE MaxInt ]
+               lbm == MaxSeq(lbs)  ubm == MinSeq(ubs)
+           IN [ lo |-> IF lbm > cols[j].lo THEN lbm ELSE cols[j].lo,
+                hi |-> IF ubm < cols[j].hi THEN ubm ELSE cols[j].hi ] ]
+RedRows(rows, cols) == [ i \in DOMAIN rows |-> RowLb(rows[i], cols) >= 0 ]
+\* forced columns ("nan" = not fixed)
+RedCols(rows, cols) == LET t == Tighten(rows, cols) IN
+  [ j \in DOMAIN cols |-> [fixed |-> t[j].lo = t[j].hi, val |-> t[j].lo] ]
+
+(* ---- reduction steps ------------------------------------------------------------ *)
+KeepIdx(n, keep(_)) == SelectSeq([ j \in 1..n |-> j ], keep)
+\* move fixed columns (cv[j].fixed) into b and drop them
+ReduceCols(rows, cols, cv) ==
+  LET keepJ == KeepIdx(Len(cols), LAMBDA j : ~cv[j].fixed)
+  IN [ rows |-> [ i \in DOMAIN rows |->
+                   [ b |-> rows[i].b - SumSeq([ j \in DOMAIN cols |-> IF cv[j].fixed THEN rows[i].a[j] * cv[j].val ELSE 0 ]),
+                     a |-> [ k \in DOMAIN keepJ |-> rows[i].a[keepJ[k]] ] ] ],
+       cols |-> [ k \in DOMAIN keepJ |-> cols[keepJ[k]] ] ]
+ReduceRows(rows, rv) == LET keepI == KeepIdx(Len(rows), LAMBDA i : ~rv[i]) IN [ k \in DOMAIN keepI |-> rows[keepI[k]] ]
+
+\* C11 as a relation between an original polyhedron, the fixed columns so far and a current polyhedron:
+\* every solution of the original is a solution of the current one extended with the fixed values, and vice versa.
+\* cur columns are identified with original columns by id.
+ColPos(cols, id) == CHOOSE j \in DOMAIN cols : cols[j].id = id
+ProjOK(rows0, cols0, cv, rows1, cols1) ==
+  LET kept == { cols1[k].id : k \in DOMAIN cols1 }
+      lift(y) == [ j \in DOMAIN cols0 |-> IF cols0[j].id \in kept THEN y[ColPos(cols1, cols0[j].id)] ELSE cv[j].val ]
+  IN /\ \A j \in DOMAIN cols0 : (cols0[j].id \in kept) <=> ~cv[j].fixed
+     /\ PSol(rows0, cols0) = { lift(y) : y \in PSol(rows1, cols1) }
+
+(* ---- point classification (C19): nested sequences of points -------------------- *)
+SatPt(rows, x) == \A i \in DOMAIN rows : RowOk(rows[i], x)
+B01(t) == IF t THEN 1 ELSE 0
+Sat1(rows, p) == B01(SatPt(rows, p))
+Sat2(rows, P) == [ k \in DOMAIN P |-> Sat1(rows, P[k]) ]
+Sat3(rows, T) == [ g \in DOMAIN T |-> Sat2(rows, T[g]) ]
+Sep1(rows, p) == B01(~SatPt(rows, p))
+Sep2(rows, P) == [ k \in DOMAIN P |-> Sep1(rows, P[k]) ]
+Sep3(rows, T) == [ g \in DOMAIN T |-> Sep2(rows, T[g]) ]
+\* per row: does some point of the group violate that row
+RowSep2(rows, P) == [ i \in DOMAIN rows |-> B01(\E k \in DOMAIN P : ~RowOk(rows[i], P[k])) ]
+RowSep1(rows, p) == RowSep2(rows, <<p>>)
+RowSep3(rows, T) == [ g \in DOMAIN T |-> RowSep2(rows, T[g]) ]
+
+(* ---- trace verdicts --------------------------------------------------------------- *)
+PFail(c, ok) == IF ok THEN {} ELSE {c}
+CV(e) == [ j \in DOMAIN e.fixed |-> [fixed |-> e.fixed[j], val |-> e.val[j]] ]
+FlagsB(s) == [ i \in DOMAIN s |-> s[i] = 1 ]
+
+\* one-shot reducable_rows_and_columns() + reduce(), with the loop's hook events
+EvReduceOneShot(e) ==
+  LET rows == e.rows  cols == e.cols
+      cv == CV(e)
+      fr == FlagsB(e.full_rows)
+      red == e.reduced
+      stepOK(s) == LET scv == [ j \in DOMAIN s.fixed |-> [fixed |-> s.fixed[j], val |-> s.val[j]] ]
+                       kept == { s.cols[k].id : k \in DOMAIN s.cols }
+                   IN /\ WellFormed(s.rows, s.cols)
+                      /\ \A j \in DOMAIN cols : (cols[j].id \in kept) <=> ~scv[j].fixed
+                      /\ ProjOK(rows, cols, scv, s.rows, s.cols)
+  IN IF ~WellFormed(rows, cols) THEN {"outside_domain"} ELSE
+     PFail("shape", Len(e.full_rows) = Len(rows) /\ Len(e.fixed) = Len(cols) /\ WellFormed(red.rows, red.cols))
+     \cup PFail("rows_implied", \A i \in DOMAIN rows : fr[i] => \A x \in PBox(cols) :
+                                     (\A j \in DOMAIN cols : cv[j].fixed => x[j] = cv[j].val) => RowOk(rows[i], x))
+     \cup PFail("cols_forced", \A j \in DOMAIN cols : cv[j].fixed => \A x \in PSol(rows, cols) : x[j] = cv[j].val)
+     \cup PFail("projection", ProjOK(rows, cols, cv, red.rows, red.cols))
+     \cup PFail("labels", /\ [ k \in DOMAIN red.cols |-> red.cols[k].id ] = [ k \in DOMAIN KeepIdx(Len(cols), LAMBDA j : ~cv[j].fixed) |-> cols[KeepIdx(Len(cols), LAMBDA j : ~cv[j].fixed)[k]].id ]
+                          /\ red.index = [ k \in DOMAIN KeepIdx(Len(rows), LAMBDA i : ~fr[i]) |-> e.index[KeepIdx(Len(rows), LAMBDA i : ~fr[i])[k]] ]
+                          /\ \A k \in DOMAIN red.cols : \E j \in DOMAIN cols : cols[j] = red.cols[k])
+     \cup PFail("loop_inv", \A k \in DOMAIN e.steps : stepOK(e.steps[k]))
+
+\* the public sub-operations, one call each on a fresh polyhedron
+EvReduceOps(e) ==
+  LET rows == e.rows  cols == e.cols
+      rr == FlagsB(e.red_rows)
+      cv == CV(e)
+  IN IF ~WellFormed(rows, cols) THEN {"outside_domain"} ELSE
+     PFail("shape", Len(e.red_rows) = Len(rows) /\ Len(e.fixed) = Len(cols))
+     \cup PFail("rows_implied", \A i \in DOMAIN rows : rr[i] => \A x \in PBox(cols) : RowOk(rows[i], x))
+     \cup PFail("cols_forced", \A j \in DOMAIN cols : cv[j].fixed => \A x \in PSol(rows, cols) : x[j] = cv[j].val)
+     \cup PFail("reduce_cols_fn", LET s == ReduceCols(rows, cols, cv) IN e.after_cols.rows = s.rows /\ e.after_cols.cols = s.cols
+                                     /\ e.after_cols.index = e.index)
+     \cup PFail("reduce_rows_fn", e.after_rows.rows = ReduceRows(rows, rr) /\ e.after_rows.cols = cols
+                                     /\ e.after_rows.index = ReduceRows(e.index, rr))
+
+\* C12
+EvTighten(e) ==
+  LET rows == e.rows  cols == e.cols
+      S == PSol(rows, cols)
+      lb == e.tight[1]  ub == e.tight[2]
+  IN IF ~WellFormed(rows, cols) THEN {"outside_domain"} ELSE
+     PFail("shape", Len(lb) = Len(cols) /\ Len(ub) = Len(cols) /\ Len(e.rowb) = Len(rows) /\ Len(e.ncomb) = Len(rows)
+                    /\ Len(e.colb[1]) = Len(cols) /\ Len(e.colb[2]) = Len(cols))
+     \cup PFail("contain", \A x \in S : \A j \in DOMAIN cols : lb[j] <= x[j] /\ x[j] <= ub[j])
+     \cup PFail("no_widen", \A j \in DOMAIN cols : lb[j] >= cols[j].lo /\ ub[j] <= cols[j].hi)
+     \cup PFail("contra_only_if_empty", (\E j \in DOMAIN cols : lb[j] > ub[j]) => S = {})
+     \cup PFail("rowb_exact", \A i \in DOMAIN rows : LET v == RowRange(rows[i], cols) IN e.rowb[i] = << SetMin(v), SetMax(v) >>)
+     \cup PFail("colb", \A j \in DOMAIN cols : e.colb[1][j] = cols[j].lo /\ e.colb[2][j] = cols[j].hi)
+     \cup PFail("ncomb", \A i \in DOMAIN rows : e.ncomb[i] = NComb(rows[i], cols))
+
+\* C19
+EvClassify(e) ==
+  LET rows == e.rows IN
+  IF e.ndim = 1 THEN PFail("sat_value", e.sat = Sat1(rows, e.points)) \cup PFail("sep_value", e.sep = Sep1(rows, e.points))
+                     \cup PFail("rowsep_value", e.rowsep = RowSep1(rows, e.points))
+  ELSE IF e.ndim = 2 THEN PFail("sat_value", e.sat = Sat2(rows, e.points)) \cup PFail("sep_value", e.sep = Sep2(rows, e.points))
+                     \cup PFail("rowsep_value", e.rowsep = RowSep2(rows, e.points))
+  ELSE PFail("sat_value", e.sat = Sat3(rows, e.points)) \cup PFail("sep_value", e.sep = Sep3(rows, e.points))
+       \cup PFail("rowsep_value", e.rowsep = RowSep3(rows, e.points))
+
+(* ---- C20: id / position bridges ------------------------------------------------------ *)
+\* vars : Seq([id, lo, hi]); d : id -> value pairs; default kind: "lower" (integer dtype), "nan" (float dtype), "fn" (callable, value given per id)
+ConstructSpec(vars, d, kind, fnvals) ==
+  \* entries are <<0, value>> or <<1, 0>> for NaN
+  [ j \in DOMAIN vars |-> IF vars[j].id \in DOMAIN d THEN <<0, d[vars[j].id]>>
+                          ELSE IF kind = "fn" THEN <<0, fnvals[vars[j].id]>>
+                          ELSE IF kind = "lower" THEN <<0, vars[j].lo>> ELSE <<1, 0>> ]
+BoolIdx(vars) == { j - 1 : j \in { j \in DOMAIN vars : vars[j].lo = 0 /\ vars[j].hi = 1 } }      \* 0-based like numpy
+IntIdx(vars)  == { j - 1 : j \in { j \in DOMAIN vars : ~(vars[j].lo = 0 /\ vars[j].hi = 1) } }
+FirstPos(lst, x) == SetMin({ i \in DOMAIN lst : lst[i] = x })
+FromListBool(lst, ctx) == [ j \in DOMAIN ctx |-> B01(\E i \in DOMAIN lst : lst[i] = ctx[j]) ]
+FromListInt(lst, ctx)  == [ j \in DOMAIN ctx |-> IF \E i \in DOMAIN lst : lst[i] = ctx[j] THEN FirstPos(lst, ctx[j]) ELSE 0 ]
+ToList(arr, vars) == LET keep == KeepIdx(Len(arr), LAMBDA j : arr[j] = 1) IN [ k \in DOMAIN keep |-> vars[keep[k]].id ]
+
+EvConstruct(e) ==
+  LET d == PairsFn(e.dict)
+      fv == PairsFn(e.fnvals)
+  IN PFail("construct", e.res = ConstructSpec(e.vars, d, e.kind, fv))
+EvPartition(e) ==
+  PFail("partition", /\ { e.bool_idx[i] : i \in DOMAIN e.bool_idx } = BoolIdx(e.vars) /\ Len(e.bool_idx) = Cardinality(BoolIdx(e.vars))
+                     /\ { e.int_idx[i] : i \in DOMAIN e.int_idx } = IntIdx(e.vars) /\ Len(e.int_idx) = Cardinality(IntIdx(e.vars)))
+EvLists(e) ==
+  PFail("from_list_bool", e.bool_arr = FromListBool(e.lst, e.ctx))
+  \cup PFail("from_list_int", e.int_arr = FromListInt(e.lst, e.ctx))
+  \cup PFail("from_list_nested", /\ e.bool_nested = [ g \in DOMAIN e.lsts |-> FromListBool(e.lsts[g], e.ctx) ]
+                                 /\ e.int_nested = [ g \in DOMAIN e.lsts |-> FromListInt(e.lsts[g], e.ctx) ])
+  \cup PFail("to_list", e.to_list = ToList(e.arr, e.vars))
+  \cup PFail("to_list_nested", e.to_list_nested = [ g \in DOMAIN e.arrs |-> ToList(e.arrs[g], e.vars) ])
+EvSplitAb(e) ==
+  PFail("split_Ab", /\ e.b = [ i \in DOMAIN e.matrix |-> e.matrix[i][1] ]
+                    /\ e.A = [ i \in DOMAIN e.matrix |-> Tail(e.matrix[i]) ]
+                    /\ e.A_vars = Tail(e.vars) /\ e.A_index = e.index
+                    /\ e.linalg_A = e.A /\ e.linalg_b = e.b)
+
+PolyOpNames == {"reduce_oneshot", "reduce_ops", "tighten", "classify", "construct", "partition", "lists", "split_Ab"}
+PolyVerdict(e) ==
+  CASE e.op = "reduce_oneshot" -> EvReduceOneShot(e)
+    [] e.op = "reduce_ops"     -> EvReduceOps(e)
+    [] e.op = "tighten"        -> EvTighten(e)
+    [] e.op = "classify"       -> EvClassify(e)
+    [] e.op = "construct"      -> EvConstruct(e)
+    [] e.op = "partition"      -> EvPartition(e)
+    [] e.op = "lists"          -> EvLists(e)
+    [] e.op = "split_Ab"       -> EvSplitAb(e)
+    [] OTHER                   -> {}
 =============================================================================
